@@ -111,7 +111,7 @@ def gen_cases(tier, seed):
     n2 = n3 = 0
     for j in range(8 if not thorough else 60):
         dim = 3 if j % 4 == 3 else 2
-        kind = ["clayton", "independent", "clayton", "dependent"][j % 4]
+        kind = str(rng.choice(["clayton", "independent", "clayton", "dependent"]))      # (random: a modulo rule ties the kind to the dimension cycle)
         cm = W.gen_copula_model_spec(rng, dim=dim, kind=kind)
         W.limit_variation(rng, cm, allow_infinite=(dim == 2 and j % 4 == 2))
         for ms in cm["margins"]:
